@@ -108,7 +108,8 @@ pub fn worker_main(scn: &dyn Scenario, thorough: bool, seed: u64, w: usize, n: u
     let summary = json!({
         "worker": w,
         "evaluations": evaluations,
-        "distinct": distinct.iter().map(|h| format!("{:x}", h)).collect::<Vec<_>>(),
+        "distinct": distinct.iter().take(300_000).map(|h| format!("{:x}", h)).collect::<Vec<_>>(),
+        "distinct_count": distinct.len(),
         "traces": traces.len(),
         "trace_hashes": traces.iter().take(50_000).map(|h| format!("{:x}", h)).collect::<Vec<_>>(),
         "batch_sigs": batch_sigs.iter().map(|h| format!("{:x}", h)).collect::<Vec<_>>(),
@@ -388,9 +389,11 @@ pub fn run_main(scn: &dyn Scenario, thorough: bool, seed: u64, workers: usize) -
             for line in r.lines().map_while(Result::ok) {
                 let _ = txc.send(Msg::Line(w, line));
             }
+            let _ = txc.send(Msg::Exit(w, None, None));
         });
         children.push(Some(child));
     }
+    let mut eof: Vec<bool> = vec![false; workers];
     let mut last_begin: Vec<Option<usize>> = vec![None; workers];
     let mut last_activity: Vec<Instant> = vec![Instant::now(); workers];
     let mut summaries: Vec<Option<Value>> = vec![None; workers];
@@ -415,7 +418,7 @@ pub fn run_main(scn: &dyn Scenario, thorough: bool, seed: u64, workers: usize) -
                     }
                 }
             }
-            Ok(Msg::Exit(..)) => {}
+            Ok(Msg::Exit(w, _, _)) => eof[w] = true,
             Err(mpsc::RecvTimeoutError::Timeout) => {}
             Err(mpsc::RecvTimeoutError::Disconnected) => break,
         }
@@ -423,10 +426,16 @@ pub fn run_main(scn: &dyn Scenario, thorough: bool, seed: u64, workers: usize) -
             if let Some(ch) = children[w].as_mut() {
                 match ch.try_wait() {
                     Ok(Some(st)) => {
-                        // drain remaining lines for a moment
-                        let deadline = Instant::now() + Duration::from_millis(300);
-                        while summaries[w].is_none() && Instant::now() < deadline {
-                            if let Ok(Msg::Line(ww, line)) = rx.recv_timeout(Duration::from_millis(50)) {
+                        // the worker is gone: read what it wrote until its stdout reports end of file
+                        // (a summary line can be tens of megabytes)
+                        let deadline = Instant::now() + Duration::from_secs(60);
+                        while !eof[w] && Instant::now() < deadline {
+                            let m = rx.recv_timeout(Duration::from_millis(50));
+                            if let Ok(Msg::Exit(ww, _, _)) = m {
+                                eof[ww] = true;
+                                continue;
+                            }
+                            if let Ok(Msg::Line(ww, line)) = m {
                                 if let Some(rest) = line.strip_prefix("S ") {
                                     if let Ok(v) = serde_json::from_str::<Value>(rest) {
                                         summaries[ww] = Some(v);
@@ -482,6 +491,7 @@ pub fn run_main(scn: &dyn Scenario, thorough: bool, seed: u64, workers: usize) -
 
     // ---- aggregate
     let mut evaluations = 0u64;
+    let mut distinct_truncated = false;
     let mut distinct: BTreeSet<String> = BTreeSet::new();
     let mut traces: BTreeSet<String> = BTreeSet::new();
     let mut batch_sigs: BTreeSet<String> = BTreeSet::new();
@@ -497,6 +507,9 @@ pub fn run_main(scn: &dyn Scenario, thorough: bool, seed: u64, workers: usize) -
         evaluations += s["evaluations"].as_u64().unwrap_or(0);
         for h in s["distinct"].as_array().into_iter().flatten() {
             distinct.insert(h.as_str().unwrap_or("").to_string());
+        }
+        if s["distinct_count"].as_u64().unwrap_or(0) > 300_000 {
+            distinct_truncated = true;
         }
         for h in s["trace_hashes"].as_array().into_iter().flatten() {
             traces.insert(h.as_str().unwrap_or("").to_string());
@@ -654,6 +667,7 @@ pub fn run_main(scn: &dyn Scenario, thorough: bool, seed: u64, workers: usize) -
             "evaluations": evaluations,
             "distinct_nontrivial": nontrivial,
             "rule": scn.rule(),
+            "distinct_nontrivial_is_lower_bound": distinct_truncated,
             "samples": samples,
             "exhaustive": scn.exhaustive(thorough),
             "planned_cases": plan_len,
